@@ -203,6 +203,10 @@ func postBlock(fw *formatWriter, source []byte, cursor *commonmark.Cursor) {
 	case commonmark.ListItemKind:
 		fw.s("\n")
 	case commonmark.IndentedCodeBlockKind, commonmark.FencedCodeBlockKind:
+		if fw.startedLine {
+			// The content ended without a line ending (end of input).
+			fw.s("\n")
+		}
 		c := [1]byte{codeFenceChar(source, b)}
 		for i, n := 0, codeFenceLength(source, b); i < n; i++ {
 			fw.b(c[:])
